@@ -105,6 +105,10 @@ fn find_and_play_best_move(
     // the search stops at its next clock test, wait for it so that none of its
     // output can follow the answer or leak into the reply to the next request
     search_thread.join().unwrap();
+    // play the newest move the search handed over: the loop above may have left before picking up the last ones
+    while let Ok(b) = rx.try_recv() {
+        best_move = Some(b);
+    }
     let board = best_move.unwrap();
     send_best_move_to_gui(&board);
     info!("{}", board.simple_board());
